@@ -59,6 +59,25 @@ OneToOneOK(inp, out, byTarget) ==
   /\ \A k \in 1..(Len(out) - 1) : Key(out[k], byTarget) < Key(out[k + 1], byTarget)
   /\ {Key(c, byTarget) : c \in ins} = {Key(out[k], byTarget) : k \in DOMAIN out}
 
+(* ---------------- RANSAC control loop (src/regression/ransac/Ransac.cpp) driven through a scripted RansacModel (the abstract *)
+(* model class is the mock seam): script[i] = <<drawOk, inliers>> is what the i-th draw / countInliers returns; B[c + 1] is the *)
+(* iteration bound of the standard formula for c inliers (an input table computed by the harness).  The loop runs while        *)
+(* iter < bound; a strictly better consensus lowers the bound; it succeeds iff the best consensus exceeds the sample size.     *)
+RECURSIVE RansacRun(_, _, _, _, _, _)
+RansacRun(script, B, iter, best, bound, ncount) ==
+  IF iter >= bound \/ iter >= Len(script) THEN [draws |-> iter, best |-> best, counts |-> ncount]
+  ELSE LET ok == script[iter + 1][1]  c == script[iter + 1][2]
+           better == ok /\ c > best
+       IN RansacRun(script, B, iter + 1, IF better THEN c ELSE best,
+                    IF better /\ B[c + 1] < bound THEN B[c + 1] ELSE bound, IF ok THEN ncount + 1 ELSE ncount)
+RansacOK(t) ==
+  IF t.N < t.minInl
+    THEN t.draws = 0 /\ t.counts = 0 /\ ~t.ret /\ t.refines = 0                       \* too few points: nothing is tried
+    ELSE LET r == RansacRun(t.script, t.B, 0, 0, 1000, 0) IN
+         /\ r.draws <= 1000 /\ t.draws = r.draws /\ t.counts = r.counts
+         /\ t.ret = (r.best > t.m)
+         /\ t.refines = (IF t.ret THEN 1 ELSE 0)                                         \* refined exactly once, only on success
+
 (* ---------------- durations (nanoseconds as the unit; values kept below 2^31) *)
 FromMicro(us) == us * 1000
 ToMicro(ns) == IF ns >= 0 THEN ns \div 1000 ELSE -((-ns) \div 1000)          \* C++ integer division truncates toward zero
